@@ -615,15 +615,19 @@ std::string oracle(std::string const &f, i128 a, i128 b)
   return "?";
 }
 
-std::string selfcheck(std::string const &f, i128 expect)
+// rows [alo, ahi] of the square (all second operands); the full square is split over several lines so that no single line
+// needs minutes of CPU time
+std::string selfcheck(std::string const &f, i128 expect, i128 alo, i128 ahi)
 {
   auto const it = table.find(f);
   if (it == table.end())
     return "bad-op";
   bool const sgn = f.find("_i16") != std::string::npos;
   i128 const l = sgn ? -32768 : 0, h = sgn ? 32767 : 65535;
+  if (alo < l || ahi > h)
+    return "bad-op";
   i128 n = 0;
-  for (i128 a = l; a <= h; ++a)
+  for (i128 a = alo; a <= ahi; ++a)
     for (i128 b = l; b <= h; ++b)
     {
       std::string const got = it->second(a, b, 0);
@@ -726,7 +730,12 @@ std::string handle(std::vector<std::string> const &t)
   if (t.size() < 3)
     return "bad-op";
   if (t[0] == "selfcheck" && t.size() == 3)
-    return selfcheck(t[1], parse(t[2]));
+  {
+    bool const sgn = t[1].find("_i16") != std::string::npos;
+    return selfcheck(t[1], parse(t[2]), sgn ? -32768 : 0, sgn ? 32767 : 65535);
+  }
+  if (t[0] == "selfcheck" && t.size() == 4)
+    return selfcheck(t[1], 0, parse(t[2]), parse(t[3]));
   auto const it = table.find(t[1]);
   if (it == table.end())
     return "bad-op";
